@@ -129,6 +129,47 @@ impl Sample for Wipe7 {
     fn zeroed() -> Self { Wipe7(7) }
 }
 
+thread_local! { static ZCALLS: std::cell::Cell<u64> = const { std::cell::Cell::new(0) }; }
+fn zcalls() -> u64 {
+    ZCALLS.with(|c| c.get())
+}
+/// zero-sized element whose `zeroize` is observable only through its call count ("no slot is skipped or counted twice")
+#[derive(Clone, Debug, PartialEq)]
+pub struct Zc;
+impl Zeroize for Zc {
+    fn zeroize(&mut self) {
+        ZCALLS.with(|c| c.set(c.get() + 1));
+    }
+}
+/// non-zero-sized element that counts its `zeroize` calls and records that it was wiped
+#[derive(Clone, Debug, PartialEq)]
+pub struct Cn(u8);
+impl Zeroize for Cn {
+    fn zeroize(&mut self) {
+        ZCALLS.with(|c| c.set(c.get() + 1));
+        self.0 = 0;
+    }
+}
+
+macro_rules! count_case {
+    ($T:ty, $N:ty, $mk:expr, $per:expr) => {{
+        let n = <$N>::USIZE;
+        let mut a = GA::<$T, $N>::uninit();
+        for s in a.iter_mut() {
+            s.write($mk);
+        }
+        let mut a: GA<$T, $N> = unsafe { GA::assume_init(a) };
+        let c0 = zcalls();
+        Zeroize::zeroize(&mut a);
+        let c = zcalls() - c0;
+        if c != (n * $per) as u64 {
+            Err(format!("zeroize() of {n} elements called the element's zeroize {c} times, expected {}", n * $per))
+        } else {
+            Ok(CaseInfo::new(n > 0, "zeroize-call-count"))
+        }
+    }};
+}
+
 // NOTE: the checks below are macros instantiated at concrete (T, N), not generic functions: the
 // trait bounds under which `GenericArray<T, N>: Zeroize / ConstDefault` hold are an implementation
 // detail, and a check must not stop compiling when they are reformulated.
@@ -203,6 +244,10 @@ pub fn run(ctx: &mut Ctx) {
         z!(core::num::NonZeroU8, "NonZeroU8");
         z!(Keep, "Keep");
         z!(GA<Keep, U2>, "GA<Keep,U2>");
+        ctx.case(&format!("C19;zeroize-count;N={n};T=Zc"), || count_case!(Zc, N, Zc, 1));
+        ctx.case(&format!("C19;zeroize-count;N={n};T=Cn"), || count_case!(Cn, N, Cn(0xAA), 1));
+        ctx.case(&format!("C19;zeroize-count;N={n};T=GA<Zc,U3>"), || count_case!(GA<Zc, U3>, N, GA::from([Zc, Zc, Zc]), 3));
+        ctx.case(&format!("C19;zeroize-count;N={n};T=GA<Zc,U0>"), || count_case!(GA<Zc, U0>, N, GA::from([]), 0));
         macro_rules! cd {
             ($T:ty, $name:literal) => {{
                 // evaluated by the compiler's const evaluator
